@@ -168,6 +168,15 @@ class UDeep(UBase2):
 class UTypeErrInt(TypeError):
   pass
 
+class UNoneAttr(Exception):
+  __slots__ = ('slot_none',)
+  def __init__(self, msg):
+    super().__init__(msg)
+    self.hint = None
+    self.slot_none = None
+    self.zero = 0
+    self.empty = ''
+
 class UNoArgsInit(RuntimeError):
   def __init__(self):
     super().__init__('fixed message')
@@ -190,7 +199,9 @@ USER_CTORS = [
     ('UStr', "UStr('me')"),
     ('UOSError', "UOSError(13, 'denied', {'x': 1})"),
     ('UKeyError', "UKeyError('k', ('t', 1))"),
+    ('UBase2', "UBase2('base-first')"),
     ('UDeep', "UDeep('deep')"),
+    ('UNoneAttr', "UNoneAttr('has none')"),
     ('UTypeErrInt', "UTypeErrInt(4, 2)"),
     ('UTypeErrInt', "UTypeErrInt()"),
     ('UNoArgsInit', "UNoArgsInit()"),
